@@ -7,9 +7,9 @@ use crate::fast::*;
 use std::collections::BTreeSet;
 
 
-pub const BASE: &[&str] = &["range", "sheet-qualified", "sci", "str-punct", "blank-around-op", "blank-after-comma", "unary-minus", "percent", "func-noargs", "intersection", "union"];
+pub const BASE: &[&str] = &["abs", "range", "sheet-qualified", "sci", "str-punct", "blank-around-op", "blank-after-comma", "unary-minus", "percent", "func-noargs", "intersection", "union"];
 pub const EXTRAS: &[&str] = &[
-    "abs", "wholecol", "wholerow", "sheet-quoted", "sheet-apostrophe", "str-dquote", "str-squote", "str-bracket", "errlit", "name", "name-reflike", "array", "structured-ref", "external-ref", "unary-plus", "deleted-target-allowed",
+    "wholecol", "wholerow", "sheet-quoted", "sheet-apostrophe", "str-dquote", "str-squote", "str-bracket", "errlit", "name", "name-reflike", "array", "structured-ref", "external-ref", "unary-plus", "deleted-target-allowed",
 ];
 const W: u32 = 30;
 const H: u32 = 40;
@@ -17,10 +17,12 @@ const H: u32 = 40;
 pub fn profile(rng: &mut Rng) -> (BTreeSet<&'static str>, Vec<&'static str>) {
     let mut allow: BTreeSet<&'static str> = BASE.iter().cloned().collect();
     let mut extras = vec![];
-    let n = match rng.below(10) {
-        0..=2 => 0,
-        3..=7 => 1,
-        _ => 2,
+    let n = match rng.below(20) {
+        0..=4 => 0,
+        5..=12 => 1,
+        13..=17 => 2,
+        18 => 3,
+        _ => 4,
     };
     while extras.len() < n {
         let e = *rng.pick(EXTRAS);
